@@ -31,6 +31,7 @@ func newRing(factor int) *ring {
 		r.store[i].c2 = sync.NewCond(m)
 		r.store[i].ch = make(chan RedisResult) // this channel can't be buffered
 	}
+	verifRing(r)
 	return r
 }
 
@@ -58,6 +59,7 @@ type node struct {
 
 func (r *ring) PutOne(_ context.Context, m Completed) (chan RedisResult, error) {
 	n := &r.store[atomic.AddUint32(&r.write, 1)&r.mask]
+	verifYield(nil, "ring.put.lock", n, m)
 	n.c1.L.Lock()
 	for n.mark != 0 {
 		n.c1.Wait()
@@ -65,7 +67,9 @@ func (r *ring) PutOne(_ context.Context, m Completed) (chan RedisResult, error) 
 	n.one = m
 	n.mark = 1
 	s := n.slept
+	verifTrace("ring.put", n, 1, 0)
 	n.c1.L.Unlock()
+	verifYield(nil, "ring.put.unlocked", n, m)
 	if s {
 		n.c2.Broadcast()
 	}
@@ -74,6 +78,7 @@ func (r *ring) PutOne(_ context.Context, m Completed) (chan RedisResult, error) 
 
 func (r *ring) PutMulti(_ context.Context, m []Completed, resps []RedisResult) (chan RedisResult, error) {
 	n := &r.store[atomic.AddUint32(&r.write, 1)&r.mask]
+	verifYield(nil, "ring.put.lock", n, verifFirst(m))
 	n.c1.L.Lock()
 	for n.mark != 0 {
 		n.c1.Wait()
@@ -82,7 +87,9 @@ func (r *ring) PutMulti(_ context.Context, m []Completed, resps []RedisResult) (
 	n.resps = resps
 	n.mark = 1
 	s := n.slept
+	verifTrace("ring.put", n, 1, 0)
 	n.c1.L.Unlock()
+	verifYield(nil, "ring.put.unlocked", n, verifFirst(m))
 	if s {
 		n.c2.Broadcast()
 	}
@@ -94,10 +101,12 @@ func (r *ring) NextWriteCmd() (one Completed, multi []Completed, ch chan RedisRe
 	r.read1++
 	p := r.read1 & r.mask
 	n := &r.store[p]
+	verifYield(nil, "ring.next.lock", n, Completed{})
 	n.c1.L.Lock()
 	if n.mark == 1 {
 		one, multi, ch = n.one, n.multi, n.ch
 		n.mark = 2
+		verifTrace("ring.write", n, 2, 0)
 	} else {
 		r.read1--
 	}
@@ -110,14 +119,17 @@ func (r *ring) WaitForWrite() (one Completed, multi []Completed, ch chan RedisRe
 	r.read1++
 	p := r.read1 & r.mask
 	n := &r.store[p]
+	verifYield(nil, "ring.wait.lock", n, Completed{})
 	n.c1.L.Lock()
 	for n.mark != 1 {
 		n.slept = true
+		verifTrace("ring.sleep", n, 0, 0)
 		n.c2.Wait() // c1 and c2 share the same mutex
 		n.slept = false
 	}
 	one, multi, ch = n.one, n.multi, n.ch
 	n.mark = 2
+	verifTrace("ring.write", n, 2, 1)
 	n.c1.L.Unlock()
 	return
 }
@@ -128,10 +140,12 @@ func (r *ring) NextResultCh() (one Completed, multi []Completed, ch chan RedisRe
 	p := r.read2 & r.mask
 	n := &r.store[p]
 	r.resc = n.c1
+	verifYield(nil, "ring.result.lock", n, Completed{})
 	n.c1.L.Lock()
 	if n.mark == 2 {
 		one, multi, ch, resps = n.one, n.multi, n.ch, n.resps
 		n.mark = 0
+		verifTrace("ring.result", n, 0, 0)
 		n.one = Completed{}
 		n.multi = nil
 		n.resps = nil
@@ -145,6 +159,7 @@ func (r *ring) NextResultCh() (one Completed, multi []Completed, ch chan RedisRe
 func (r *ring) FinishResult() {
 	if r.resc != nil {
 		r.resc.L.Unlock()
+		verifYield(nil, "ring.finish.unlocked", r, Completed{})
 		r.resc.Signal()
 		r.resc = nil
 	}
